@@ -286,3 +286,17 @@ def run(ctx):
     ctx.rule("R8.flatten", "vars_flatten addresses exactly the requested elements, in packed-buffer order (bounded)")
     nf = r8flat.check(ctx, ctx.need_fn(prog, "vars_flatten"), "R8.flatten", "segs")
     ctx.require(nf >= 200, "R8.flatten: only %d requests evaluated" % nf)
+    from rules import r10mismatch
+    ctx.rule("R10.iomismatch", "NC_EIOMISMATCH is raised under an inequality (`!=`) of the buffer's and the request's element counts at "
+             "every site, never under an ordering")
+    _p = ctx.program(groups=["lib"])
+    _ev = None
+    for u in _p.units.values():
+        if "NC_EIOMISMATCH" in u.macros:
+            try:
+                _ev = int(u.macros["NC_EIOMISMATCH"].strip("() "), 0)
+            except ValueError:
+                pass
+            break
+    ctx.require(_ev is not None, "macro NC_EIOMISMATCH not found / not a constant")
+    r10mismatch.check(ctx, _p, "R10.iomismatch", _ev, 5)
